@@ -124,7 +124,7 @@ class RecipeReplay:
                 recipe.remove(self.arg(ctx, c["n"], c["r"]), self.lab.what(c["what"]))
             elif k == "dilute":
                 recipe.dilute(self.handle(ctx, c["n"]), inst.subs[c["solute"]], inst.concentration(rat(c["t"]), c["nu"], c["du"], salt),
-                              inst.subs[c["solvent"]])
+                              inst.subs[c["solvent"]], **({"new_name": c["rename"]} if c.get("rename", "-") != "-" else {}))
             elif k == "fill_to":
                 recipe.fill_to(self.arg(ctx, c["n"], c["r"]), inst.subs[c["solvent"]], inst.quantity(rat(c["T"]), c["u"], salt))
             elif k == "start_stage":
@@ -228,8 +228,8 @@ class RecipeReplay:
         elif want == "ValueError":
             return      # a value-level bake failure: judged by C08 / C03
         # the observable recipe state after the call
-        if ev["cls"] in ("unused_object", "step_infeasible"):
-            return      # a failed bake is terminal in the specification
+        if ev["cls"] == "step_infeasible":
+            return      # a bake that failed on an infeasible step is terminal in the specification
         if len(recipe.steps) != ev["nsteps"]:
             self.report("C16", "steps_changed", key, f"{call_txt}: {len(recipe.steps)} steps recorded, specified {ev['nsteps']}", ev)
         elif list(recipe.results.keys()) != ev["decl"]:
@@ -253,7 +253,8 @@ class RecipeReplay:
         self.counts["bakes"] += 1
         hist_steps = [h for h in ev["history"] if h["call"] not in ("uses", "start_stage", "end_stage", "bake")]
         key = {"op": "bake", "steps": "+".join(sorted({h["call"] for h in hist_steps})),
-               "slice_fill": any(h["call"] == "fill_to" and h["r"] not in ("-", "plate", "all") for h in hist_steps)}
+               "slice_fill": any(h["call"] == "fill_to" and h["r"] not in ("-", "plate", "all") for h in hist_steps),
+               "renamed": any(h["call"] == "dilute" and h.get("rename", "-") != "-" for h in hist_steps)}
         self.ran("C08")
         if ev["cls"] == "step_infeasible":
             self.ran("C03")
